@@ -144,3 +144,16 @@ def LBuf.walkBwd (b : LBuf) : Nat → Option Nat → List Nat
 
 def LBuf.opsAt (b : LBuf) (as : List Nat) : List Op := as.filterMap (fun a => (b.heap[a]?).map (·.op))
 end GoBatcher
+
+namespace GoBatcher.HeapSem
+/-! ### meaning of the pointer operations the translator of `buffer.go` emits (extract/transbuf.go) -/
+
+/-- the node a pointer refers to; `none` = nil dereference (a panic in Go) -/
+def rd (b : LBuf) (p : Option Nat) : Option Link := p.bind (b.heap[·]?)
+/-- `P.prv = v` -/
+def storePrv (b : LBuf) (p : Option Nat) (v : Option Nat) : Option LBuf :=
+  p.bind fun a => (b.heap[a]?).map fun l => { b with heap := b.heap.set a { l with prv := v } }
+/-- `P.nxt = v` -/
+def storeNxt (b : LBuf) (p : Option Nat) (v : Option Nat) : Option LBuf :=
+  p.bind fun a => (b.heap[a]?).map fun l => { b with heap := b.heap.set a { l with nxt := v } }
+end GoBatcher.HeapSem
